@@ -6,6 +6,7 @@ set -u
 T=$1; SECS=$2; PROP=${3:-C02}
 # the connection-level target judges with the oracle of the property it is run for
 [ "$T" = sink ] && export SINK_PROP=$PROP
+[ "$T" = disp ] && export DISP_PROP=$PROP
 cd "$(dirname "$0")/.." || exit 2
 export CARGO_NET_OFFLINE=true VERIF_ROOT=$PWD ASAN_OPTIONS=detect_leaks=0
 ./check --build >/dev/null 2>&1 || { echo "harness build failed"; exit 2; }
